@@ -65,9 +65,17 @@ Definition units_convertible (uts : list unit_type) (us : list string) : bool :=
       end
   end.
 
+(* the profiles of a tuple use tuple-wide ids for functions and locations: an id means the same
+   function / location in every profile that has it (each profile lists the ones it uses) *)
 Definition tables_eqb (a b : profile) : bool :=
-  term_eqb (TL (map of_location (p_location a))) (TL (map of_location (p_location b)))
-  && term_eqb (TL (map of_function (p_function a))) (TL (map of_function (p_function b))).
+  forallb (fun l => match find_location b (l_id l) with
+                    | Some l' => term_eqb (of_location l) (of_location l')
+                    | None => true
+                    end) (p_location a)
+  && forallb (fun f => match find_function b (f_id f) with
+                       | Some f' => term_eqb (of_function f) (of_function f')
+                       | None => true
+                       end) (p_function a).
 
 Definition ovt_same (a b : option valuetype) : bool :=
   match a, b with
@@ -87,7 +95,7 @@ Definition spec_compatible (uts : list unit_type) (nm : bool) (srcs bases : list
   | [] => false
   | p0 :: r =>
       forallb (fun p => nodupb (type_names p)) ps
-      && forallb (tables_eqb p0) r
+      && forallb (fun a => forallb (tables_eqb a) ps) ps
       && negb (match common_types ps with [] => true | _ => false end)
       (* every sample type that two profiles share has the same or convertible units *)
       && forallb (fun t => units_convertible uts (map (fun p => unit_of p t) (filter (fun p => has_name t (type_names p)) ps)))
@@ -174,7 +182,7 @@ Section Check.
     nm && Qeq_bool (sumQ (map (fun p => inject_Z (colsum p t)) srcs)) 0 && negb (column_all_zero t).
 
   Definition names_of_tuple : list string :=
-    match ps with [] => [] | p0 :: _ => nodup_str (map f_name (p_function p0)) end.
+    nodup_str (flat_map (fun p => map f_name (p_function p)) ps).
 
   (* the "base total" of sample type t: per stack identity, the magnitude of the summed base
      values (what a report of the base alone calls its total) *)
